@@ -183,6 +183,8 @@ static void op_bkgen(const V &a, V &r) {
 }
 
 #include "keys_common.h"
+#include "guard_new.h"
+static int g_guard = 0;   // op "guard 1": ciphertexts and temporaries of gatecase/netlist end at inaccessible pages (keys stay on the ordinary heap)
 // fullkey spec -> n N k l B t bb, then s(n)
 static void op_fullkey(const V &a, V &r) {
     need_keys(a);
@@ -287,12 +289,14 @@ static void op_gatecase(const V &a, V &r) {
     need_keys(a);
     const TFheGateBootstrappingParameterSet *P = cur.params; const int n = P->in_out_params->n;
     const ll *v = a.data() + SPECN; int g = v[0] % 100, alias = v[0] / 100; v++;      // alias 1..3: the result object IS input a / b / c; 4..6: two operands are one object
+    vguard::Scope gs(g_guard);
     LweSample *in = new_gate_bootstrapping_ciphertext_array(4, P);
     for (int q = 0; q < 3; q++) { for (int i = 0; i < n; i++) in[q].a[i] = (int32_t) v[(size_t) q * (n + 1) + i]; in[q].b = (int32_t) v[(size_t) q * (n + 1) + n]; }
     // alias 7: the gate runs under an FFT-only cloud key (bk = NULL) derived through the lower-level API; the LweBootstrappingKey it was
     // converted from has been refilled for other secrets and deleted
     static std::string fo_spec; static TFheGateBootstrappingCloudKeySet *fo_ck = 0; static LweBootstrappingKeyFFT *fo_bf = 0;
     if (alias == 7 && (!fo_ck || fo_spec != cur.spec)) {
+        vguard::Scope off(0);
         if (fo_ck) { delete fo_ck; delete_LweBootstrappingKeyFFT(fo_bf); }
         LweBootstrappingKey *bk2 = new_LweBootstrappingKey(P->ks_t, P->ks_basebit, P->in_out_params, P->tgsw_params);
         tfhe_createLweBootstrappingKey(bk2, cur.sk->lwe_key, cur.sk->tgsw_key);
@@ -337,6 +341,7 @@ static void op_netlist(const V &a, V &r) {
     need_keys(a);
     const TFheGateBootstrappingParameterSet *P = cur.params; const int n = P->in_out_params->n;
     const ll *v = a.data() + SPECN; int mode = v[0], nw = v[1], ni = v[2]; v += 3;
+    vguard::Scope gs(g_guard);
     LweSample *w = new_gate_bootstrapping_ciphertext_array(nw, P);
     const ll *ins = v + (size_t) 5 * ni;
     for (int i = 0; i < nw; i++) {
@@ -393,6 +398,7 @@ int main() {
         else if (op == "brpair") op_brpair(a, r);
         else if (op == "fullkey") op_fullkey(a, r);
         else if (op == "ksbias") op_ksbias(a, r);
+        else if (op == "guard") { g_guard = a.empty() ? 0 : (int) a[0]; r.push_back(1); r.push_back(vguard::served); }
         else if (op == "fullcase") op_fullcase(a, r);
         else if (op == "gatecase") op_gatecase(a, r);
         else if (op == "encdec") op_encdec(a, r);
